@@ -75,3 +75,59 @@ let () =
               let canon = if mode = "pretty" then SerAll.ser_pretty t else SerAll.ser_compact t in
               if hex_of_bytes canon <> oh then "bad:not the canonical " ^ mode ^ " form (escaping / separators / layout)"
               else "ok")) | _ -> raise (Bad_op "sercheck2"))
+
+(* ---------- C19: to_value ---------- *)
+let two k = BinInt.Z.pow (z_of_int 2) (z_of_int k)
+let rec etree_dump (e : SerVal.etree) : string option =
+  match e with
+  | SerVal.ENull -> Some "n"
+  | SerVal.EBool true -> Some "t" | SerVal.EBool false -> Some "f"
+  | SerVal.EInt z ->
+    if BinInt.Z.leb BinNums.Z0 z && BinInt.Z.ltb z (two 64) then Some ("u" ^ hex_of_z z)
+    else if BinInt.Z.ltb z BinNums.Z0 && BinInt.Z.leb (BinInt.Z.opp (two 63)) z then Some ("i" ^ hex_of_z z)
+    else None                                 (* not representable in the DOM *)
+  | SerVal.EF64 b -> let h = hex_of_z b in Some ("f" ^ String.make (16 - String.length h) '0' ^ h)
+  | SerVal.EF32 b -> let h = hex_of_z (Num.widen_f32 b) in Some ("f" ^ String.make (16 - String.length h) '0' ^ h)
+  | SerVal.EStr s -> Some ("s" ^ hex_of_bytes s)
+  | SerVal.EArr l ->
+    let parts = Stdlib.List.map etree_dump l in
+    if Stdlib.List.exists (fun x -> x = None) parts then None
+    else Some ("[" ^ String.concat "," (Stdlib.List.map (function Some x -> x | None -> "") parts) ^ "]")
+  | SerVal.EObj l ->
+    let parts = Stdlib.List.map (fun (k, v) -> (hex_of_bytes k, etree_dump v)) l in
+    if Stdlib.List.exists (fun (_, x) -> x = None) parts then None
+    else
+      (* later duplicates of a key replace earlier ones in a map; members compared sorted *)
+      let tbl = Hashtbl.create 8 in
+      Stdlib.List.iter (fun (k, v) -> Hashtbl.replace tbl k (match v with Some x -> x | None -> "")) parts;
+      let ms = Stdlib.List.sort compare (Hashtbl.fold (fun k v acc -> (k, v) :: acc) tbl []) in
+      Some ("{" ^ String.concat "," (Stdlib.List.map (fun (k, v) -> k ^ ":" ^ v) ms) ^ "}")
+
+(* re-sort a dump produced in iteration order *)
+let () =
+  reg "same" (function _ :: _ :: r :: _ -> r | _ -> raise (Bad_op "same"));
+  reg "tovalue" (function enc :: d :: _ ->
+      let v = parse_sval enc in
+      (match SerVal.expect big v with
+       | None -> "bad:the value is not serializable but to_value succeeded"
+       | Some e ->
+         (match etree_dump e with
+          | None -> "bad:the value holds a 128-bit integer beyond 64 bits but to_value succeeded"
+          | Some want ->
+            let got = Ops_hist.dump_tree (Ops_hist.tree_of_string d) in
+            if got = want then "ok" else "bad:to_value built " ^ got ^ " expected " ^ want)) | _ -> raise (Bad_op "tovalue"));
+  reg "tovalue_text" (function _ -> "same");
+  (* the documented counterparts: to_value refuses exactly when the value holds an integer beyond 64 bits
+     or a non-finite float (the text route prints digits / null) *)
+  reg "tovalue_fail" (function enc :: _ ->
+      let v = parse_sval enc in
+      let rec bad (v : SerVal.sval) = match v with
+        | SerVal.VInt z -> not (BinInt.Z.leb (BinInt.Z.opp (two 63)) z && BinInt.Z.ltb z (two 64))
+        | SerVal.VF64 b -> not (SerVal.f64_finite b)
+        | SerVal.VF32 b -> not (SerVal.f32_finite b)
+        | SerVal.VSeq l -> Stdlib.List.exists bad l
+        | SerVal.VMap l -> Stdlib.List.exists (fun (k, x) -> bad k || bad x) l
+        | SerVal.VStruct l -> Stdlib.List.exists (fun (_, x) -> bad x) l
+        | SerVal.VVariant (_, Some p) -> bad p
+        | _ -> false in
+      if bad v then "dom-rejects" else "dom-accepts" | _ -> raise (Bad_op "tovalue_fail"))
